@@ -43,6 +43,7 @@ type Replay struct {
 	Race       []string      `json:"race_reports,omitempty"`
 	// WarmRuns > 0: the failure depends on state the code under test keeps across runs (package-level
 	// caches, pools); replay first re-executes runs WarmStart..WarmStart+WarmRuns-1 of the same seed and worker
+	Deep      bool `json:"deep,omitempty"` // generated with the thorough tier's larger bounds
 	Unstable  bool `json:"not_exactly_repeatable,omitempty"` // a task blocked in a primitive outside the simulator (channel, sleep)
 	WarmStart int `json:"warm_start,omitempty"`
 	WarmRuns  int `json:"warm_runs,omitempty"`
@@ -171,8 +172,10 @@ func main() {
 	dump := flag.Bool("dump", false, "print per-run hashes")
 	maxFail := flag.Int("maxfail", 6, "distinct signatures to keep per worker")
 	raceLog := flag.String("racelog", "", "GORACE log_path prefix (race builds)")
+	deepFlag := flag.Bool("deep", false, "thorough tier: larger histories")
 	flag.Parse()
 	h.NSites = sitesCount(*sites)
+	h.Deep = *deepFlag
 	h.RaceLog = *raceLog
 	h.RaceMode = simrt.RaceBuild && *raceLog != ""
 	log.SetOutput(io.Discard) // gengine logs unknown rule names through the std logger
@@ -276,6 +279,7 @@ func main() {
 				f := filepath.Join(*out, fmt.Sprintf("fail-w%d-r%d-%016x.json", *worker, i, hashStr(s)))
 				rp := mkReplay(*prop, *seed, *worker, i, o2, vs, s)
 				rp.Unstable = o.Unstable
+				rp.Deep = h.Deep
 				if warm {
 					rp.WarmStart, rp.WarmRuns = *start, i-*start
 				}
@@ -332,6 +336,7 @@ func doReplay(path string) int {
 		fmt.Fprintln(os.Stderr, "worker:", err)
 		return 2
 	}
+	h.Deep = r.Deep
 	for j := r.WarmStart; j < r.WarmStart+r.WarmRuns; j++ {
 		pl, sc := sources(r.Property, r.Seed, r.Worker, j)
 		p.Run(pl, sc, false)
@@ -371,6 +376,7 @@ func doMinimise(path, outPath string, budget float64) int {
 		fmt.Fprintln(os.Stderr, "worker:", err)
 		return 2
 	}
+	h.Deep = r.Deep
 	deadline := time.Now().Add(time.Duration(budget * float64(time.Second)))
 	tries := 0
 	try := func(c cand) (cand, bool) {
@@ -489,6 +495,7 @@ func doMinimise(path, outPath string, budget float64) int {
 	}
 	nr := mkReplay(r.Property, r.Seed, r.Worker, r.Run, o, vs, r.Signature)
 	nr.Minimised = true
+	nr.Deep = r.Deep
 	nr.Race = r.Race
 	if outPath == "" {
 		outPath = path
